@@ -14,8 +14,35 @@ def obs(group, role, name, findings, exit_code, **extra):
     return d
 
 
+CHUNK = 400      # observations per TLC run (groups are independent of each other and are never split)
+
+
 def judge(rel_name, exclude, observations, timeout=900):
-    """Returns (npairs, bad) where bad is the list of violating pairs computed by TLC."""
+    """Returns (npairs, bad) where bad is the list of violating pairs computed by TLC. Large inputs are judged in several
+    TLC runs, group by group."""
+    observations = list(observations)
+    if len(observations) > CHUNK:
+        groups = {}
+        for o in observations:
+            groups.setdefault(o["group"], []).append(o)
+        if len(groups) > 1:
+            npairs, bad, cur = 0, [], []
+            for g in groups.values():
+                if cur and len(cur) + len(g) > CHUNK:
+                    n, b = _judge1(rel_name, exclude, cur, timeout)
+                    npairs += n
+                    bad += b
+                    cur = []
+                cur += g
+            if cur:
+                n, b = _judge1(rel_name, exclude, cur, timeout)
+                npairs += n
+                bad += b
+            return npairs, bad
+    return _judge1(rel_name, exclude, observations, timeout)
+
+
+def _judge1(rel_name, exclude, observations, timeout):
     work = vlib.mktmp("rel")
     inp = os.path.join(work, "obs.ndjson")
     out = os.path.join(work, "bad.ndjson")
